@@ -3,11 +3,11 @@ CONSTANTS
   CMonths = {2,12}
   CDays = {9,28}
   CHours = {9,23}
-  CQuanta = {"Y","YM","YMD","YMDH","M","MD","MDH","D","DH","H"}
-  NSV = {FALSE,TRUE}
+  CQuanta = {"YMDH","MDH","DH"}
+  NSV = {TRUE}
   Variant = "fixed"
   Order = "code"
-  MaxT = 3
+  MaxT = 2
   MaxS = 2
   MaxClr = 2
   Depth = 0
